@@ -92,6 +92,7 @@ Inductive split_uri_res :=
 
 Definition split_uri (uri : bytes) : split_uri_res :=
   if beqb (firstn 2 uri) [47; 47] then
+    if existsb (fun x => 128 <=? x) uri then SBadURI else    (* uri.decode("ascii") *)
     let '(p1, fragment) :=
       match find uri [35] with
       | Some i => (firstn i uri, skipn (S i) uri)
